@@ -25,6 +25,29 @@ PID = "C20"
 DESIGN_INV = "TypeOK Ownership Fidelity BadNeverSent SharedUnaltered SamplesExact NeighboursUnaffected"
 
 
+MANIFEST = dict(
+    category="model_checking",
+    technique="implementation-shaped TLA+ spec of the gRPC guns' shoot path (GrpcWire) model-checked exhaustively with negative controls; TLC "
+              "generates the complete abstract ammo case space, the harness renders it and runs it through the real engine, providers and guns "
+              "against a recording TargetService with reflection; TLC validates the recorded traces against the spec's actions (TraceGrpcWire)",
+    design_ref="DESIGN.md §4 C20",
+    text=("GrpcWire.tla models a pool of gRPC guns shooting a file of entries: gun factory and Bind, ShootBegin, the call reaching the server (SendAct), "
+          "the one sample of every step, ShootEnd; for scenarios the shared template store with each gun's parsed view. TLC checks for all files of "
+          "entry classes (good, unknown method, ill-typed payload; plain and scenario), 1..3 instances and all interleavings that what the server "
+          "receives Fits the entry (method, message = payload, metadata attached), a bad step is never sent and yields exactly one failed sample, "
+          "every other entry is still shot exactly once, shared definitions are never altered; three negative controls must fail. The binding is "
+          "complete case enumeration: TLC emits every (method x field subset x metadata subset) entry of the example service plus bad entries "
+          "woven in, and the run matrix (grpc/json | grpc/scenario, shared-client, 1..3 instances, three file orders); the driver builds providers "
+          "and guns through the registered factories, runs the real engine, and TLC accepts the recorded NewGun/Bind/ShootBegin/Recv/Sample/ShootEnd "
+          "lines only if they are a behaviour of GrpcWire. Right level: the statement quantifies over all entries and configurations and over "
+          "interleaved good/bad neighbours; the acceptance test fires one payload and compares counters."),
+    note=("Values are compared as (prefix, token) pairs; only non-default values (proto3 cannot tell a default from an absent field). Received metadata "
+          "is checked to contain the entry's metadata (transport entries removed). 'Within the configured timeout' is not decided (timeout set to 120 s "
+          "so that load cannot turn into a deadline). A scenario stops at its first failed step, as the gun does. Trusted: renderers/projections in "
+          "the harness, TLC."),
+)
+
+
 def tlc_parallel(jobs):
     """jobs: [(module, cfg, kwargs)] -> results in order (threads; every TLC has its own metadir)."""
     vlib.spec_copy()
@@ -42,7 +65,7 @@ def tlc_parallel(jobs):
 
 def gen_cases(full):
     cfg = "GrpcWire_genfull.cfg" if full else "GrpcWire_gen.cfg"
-    r = vlib.tlc("GrpcWireMC", cfg, workers=1, deadlock=False, timeout=600)
+    r = vlib.tlc("GrpcWireMC", cfg, workers=1, deadlock=False, timeout=600, env={"VERIF_SEED": vlib.seed()})
     if r.error or r.violation:
         raise vlib.MachineryError("case generation failed: %s %s\n%s" % (r.kind, r.what, r.out[-3000:]))
     for ln in r.out.splitlines():
@@ -60,7 +83,7 @@ def hwm(r):
 
 def trace_check(module, cfg, rows, d, tag="t", timeout=900):
     """Returns (accepted, failing_line_index_or_None, invariant_or_None, states, TLCResult)."""
-    p = os.path.join(d, "%s_%d.ndjson" % (tag, int(time.time() * 1000) % 10**9))
+    p = os.path.join(d, "%s_%d_%d.ndjson" % (tag, int(time.time() * 1000) % 10**9, threading.get_ident() % 10**6))
     vlib.write_ndjson(p, rows)
     r = vlib.tlc(module, cfg, env={"VERIF_TRACE": p}, workers=1, dfs=True, deadlock=False, timeout=timeout, heap="6g")
     h = hwm(r)
@@ -110,15 +133,38 @@ def describe(run_rows, i, inv):
     return sig, row
 
 
-def validate(v, rows, d, doc):
-    """TLC over all runs; a rejected run is reported, dropped, and the rest is validated again."""
+def validate(v, rows, d, doc, groups=3):
+    """Runs are independent traces: validated in `groups` parallel TLC processes."""
     runs = split_runs(rows)
+    groups = max(1, min(groups, len(runs)))
+    parts = [runs[i::groups] for i in range(groups)]
+    out = [None] * groups
+    errs = []
+    vlib.spec_copy()
+
+    def work(i):
+        try:
+            out[i] = validate_group(v, parts[i], d, doc, "g%d" % i)
+        except Exception as ex:      # re-raised in the main thread
+            errs.append(ex)
+    th = [threading.Thread(target=work, args=(i,)) for i in range(groups)]
+    for t in th:
+        t.start()
+    for t in th:
+        t.join()
+    if errs:
+        raise errs[0]
+    return sum(o[0] for o in out), sum(o[1] for o in out), sum(o[2] for o in out)
+
+
+def validate_group(v, runs, d, doc, tag):
+    """TLC over the runs of one group; a rejected run is reported, dropped, and the rest is validated again."""
     validated, states, rejected = 0, 0, 0
     for attempt in range(8):
         if not runs:
             break
         flat = [r_ for run in runs for r_ in run]
-        ok, ln, inv, st, _ = trace_check("TraceGrpcWire", "TraceGrpcWire.cfg", flat, d)
+        ok, ln, inv, st, _ = trace_check("TraceGrpcWire", "TraceGrpcWire.cfg", flat, d, tag=tag)
         states += st
         if ok:
             validated += len(runs)
@@ -171,7 +217,9 @@ def run(tier, v):
     jobs = [("GrpcWireMC", "GrpcWire_exh3.cfg" if thorough else "GrpcWire_exh.cfg", dict(kw, workers=8, heap="8g")),
             ("GrpcWireMC", "GrpcWire_neg_inplace.cfg", kw), ("GrpcWireMC", "GrpcWire_neg_abortonbad.cfg", kw),
             ("GrpcWireMC", "GrpcWire_neg_dropmd.cfg", kw)]
+    t0 = time.time()
     res = tlc_parallel(jobs)
+    vlib.log("design TLC + negative controls: %.1fs (%d states)" % (time.time() - t0, res[0].distinct))
     vlib.tlc_must_pass(res[0], jobs[0][1])
     for j, r in zip(jobs[1:], res[1:]):
         vlib.tlc_must_fail(r, j[1])
@@ -181,7 +229,9 @@ def run(tier, v):
     b = vlib.harness_build()
     d = vlib.scratch()
     rows = drive(b, doc, d)
+    t0 = time.time()
     validated, tstates, rejected = validate(v, rows, d, doc)
+    vlib.log("trace validation: %.1fs (%d lines, %d states)" % (time.time() - t0, len(rows), tstates))
     shots = sum(1 for r_ in rows if r_["ev"] == "ShootBegin")
     recvs = sum(1 for r_ in rows if r_["ev"] == "Recv")
     shot_names = {(r_.get("ammo", "")[:1], r_.get("ammo")) for r_ in rows if r_["ev"] == "ShootBegin"}
